@@ -774,13 +774,25 @@ func checkC15(w *World, r *Report) {
 			}
 			n := 0
 			why := ""
+			root := f
+			if h := tailOrOnlyDelegate(f); h != nil {
+				f = h // both walk the includes in one function, told by a table what to adopt
+			}
 			for _, b := range f.Blocks {
 				for _, in := range b.Instrs {
 					src, ok := in.(*ssa.Call)
 					if !ok || !src.Call.IsInvoke() || nm(src.Call.Method) != "ChildrenByType" || len(src.Call.Args) != 1 {
 						continue
 					}
-					if k, isK := intConstOf(src.Call.Args[0]); !isK || names[k] != "import" {
+					isImport := false
+					if k, isK := intConstOf(src.Call.Args[0]); isK {
+						isImport = names[k] == "import"
+					} else if kinds, okT := tableKindsHanded(w, root, f, src.Call.Args[0]); okT {
+						for _, k := range kinds {
+							isImport = isImport || names[k] == "import"
+						}
+					}
+					if !isImport {
 						continue
 					}
 					if src.Call.Value == ssa.Value(f.Params[1]) {
@@ -1098,4 +1110,29 @@ func c12CompilerFields(w *World, r *Report, rule string) {
 		}
 		r.Check(okW, rule, "Compiler."+fv.Name(), fv.Pos(), "written by "+strings.Join(ws, ","), "Compiler."+fv.Name()+" is written by {"+strings.Join(ws, ",")+"}, reviewed writers are {"+exp+"}")
 	}
+}
+
+// tailOrOnlyDelegate: f does nothing but call one function of its package with
+// its own parameters (and package-level tables); that function.
+func tailOrOnlyDelegate(f *ssa.Function) *ssa.Function {
+	if f == nil || len(f.Blocks) != 1 {
+		return nil
+	}
+	var call *ssa.Call
+	for _, in := range f.Blocks[0].Instrs {
+		switch x := in.(type) {
+		case *ssa.Call:
+			if call != nil {
+				return nil
+			}
+			call = x
+		case *ssa.UnOp, *ssa.Return, *ssa.DebugRef:
+		default:
+			return nil
+		}
+	}
+	if call == nil || call.Call.StaticCallee() == nil || call.Call.StaticCallee().Pkg != f.Pkg || call.Call.StaticCallee().Blocks == nil {
+		return nil
+	}
+	return call.Call.StaticCallee()
 }
